@@ -115,10 +115,12 @@ def freeze(v):
             freeze(x)
     elif isinstance(v, SDict):
         v.frozen = True
+        v.slots0 = [list(s) for s in v.slots]      # the argument as passed (cases are built from this, not from what the code left behind)
         for p, k, x in v.slots:
             freeze(x)
     elif isinstance(v, SList):
         v.frozen = True
+        v.items0, v.n0 = list(v.items), v.n
         for x in v.items:
             freeze(x)
     elif isinstance(v, dict):
@@ -270,13 +272,13 @@ def conc(m, v, keys_as_refs=True):
         return ''.join(chr(x) for x in _repairer(m)(pairs))
     if isinstance(v, SDict):
         out = {}
-        for p, k, x in v.slots:
+        for p, k, x in getattr(v, 'slots0', v.slots):
             if (isinstance(p, bool) and p) or (not isinstance(p, bool) and z3.is_true(ev(p))):
                 out[conc(m, k)] = conc(m, x)
         return out
     if isinstance(v, SList):
-        n = ev(v.n).as_long()
-        return [conc(m, x) for x in v.items[:n]]
+        n = ev(getattr(v, 'n0', v.n)).as_long()
+        return [conc(m, x) for x in getattr(v, 'items0', v.items)[:n]]
     if isinstance(v, SSet):
         return set(conc(m, x) for g, x in zip(v.guards, v.items) if (g is True or z3.is_true(ev(zb(g)))))
     if isinstance(v, SBytes):
